@@ -161,6 +161,16 @@ def build_world(spec: dict) -> World:
             continue
         task.release(US(t["release"]))
         if st == "RELEASED":
+            u = t.get("unsched")
+            if u is not None:
+                # an earlier plan for this task was retracted: scheduled (with strategy u["s"]), then unscheduled
+                worker, pool, pi, wi = w.workers[u["w"]]
+                strategy = task.available_execution_strategies[u["s"]]
+                placement = R["Placement"].create_task_placement(
+                    task=task, placement_time=US(u["time"]), worker_pool_id=pool.id, worker_id=worker.id, execution_strategy=strategy
+                )
+                task.schedule(US(u["time"]), placement)
+                task.unschedule(US(u["time"]))
             continue
         prev = t["prev"]
         worker, pool, pi, wi = w.workers[prev["w"]]
@@ -491,7 +501,15 @@ def prio_key(w: World, task):
         return (_t(task.deadline), task.task_graph)
     if pol == "FIFO":
         return (_t(task.release_time),)
-    return (_t(task.deadline) - w.now - _t(task.remaining_time),)
+    # slack = deadline - now - remaining time, the remaining time taken from the world description (not from
+    # Task.remaining_time): what is left of a RUNNING / PREEMPTED task, else the runtime of the slowest strategy
+    g, t = w.tasks[task.unique_name]
+    ts = w.spec["graphs"][g]["tasks"][t]
+    if ts["state"] in ("RUNNING", "PREEMPTED") and ts.get("prev"):
+        remaining = ts["prev"]["remaining"]
+    else:
+        remaining = max(s_["runtime"] for s_ in ts["strats"])
+    return (_t(task.deadline) - w.now - remaining,)
 
 
 def charged_mismatch(w: World, rec: dict) -> bool:
@@ -787,7 +805,7 @@ def gen_world(rng, kind: str, policy: str | None = None, widened: bool = False) 
                 t["dl_ms"] = True  # the same instant, given in milliseconds
             tasks.append(t)
         graphs.append({"name": names[gi], "tasks": tasks, "edges": edges})
-    return {
+    world = {
         "policy": policy,
         "enforce": policy != "LSF" and rng.random() < (0.9 if kind == "deadline" else 0.4),
         "now": now,
@@ -795,6 +813,17 @@ def gen_world(rng, kind: str, policy: str | None = None, widened: bool = False) 
         "graphs": graphs,
         "uuid_seed": rng.randint(0, 10**9),
     }
+    r2 = common.Rng(0, "greedy-flavours/" + json.dumps(world, sort_keys=True))
+    for g in graphs:
+        for t in g["tasks"]:
+            rts = [s_["runtime"] for s_ in t["strats"]]
+            if t["state"] == "RELEASED" and t["release"] <= now and len(set(rts)) > 1 and r2.random() < 0.3:
+                slow = max(rts)
+                fast = [i for i, x in enumerate(rts) if x < slow]
+                t["unsched"] = {"w": r2.randrange(len(order)), "s": r2.choice(fast), "time": r2.randint(t["release"], now)}
+    if r2.random() < 0.3:
+        world["round2"] = True
+    return world
 
 
 def _task(name, strats, deadline, release=0, state="RELEASED", prev=None):
@@ -925,6 +954,17 @@ def canonical_case(spec: dict) -> dict:
 def run_case(spec: dict):
     w = build_world(spec)
     rec = real_schedule(w)
+    if spec.get("round2") and rec["err"] is None and rec["placements"] is not None:
+        # second invocation on the SAME cluster and workload objects: the tasks placed by the first invocation
+        # are withdrawn (cancelled before their placement is applied), everybody else is offered again; what is
+        # compared and judged is the second decision
+        for p in rec["placements"]:
+            if p.is_placed():
+                try:
+                    p.task.cancel(US(w.now))
+                except Exception:
+                    pass
+        rec = real_schedule(w)
     case = driver_case(w, rec) if rec["offered"] is not None else None
     return w, rec, case
 
